@@ -358,7 +358,11 @@ def c11(chk, thorough):
         'refuted by a small non-square witness. NOT decided: the numeric value of any kernel, algebraic laws, ordering by key, coverage '
         'of the inner dimension by the unrolled loop plus tail.')
     chk.explanation += (' Also: MatrixSort/MatrixReverseSort exchange whole rows exactly when a plain strict key comparison finds them out of order '
-                        '(SORT.shape), and no kernel applies an absolute tolerance to a data-scaled quantity outside the confirmed sites (K.tolerance).')
+                        '(SORT.shape), no kernel applies an absolute tolerance to a data-scaled quantity outside the confirmed sites (K.tolerance), and '
+                        '(K.definition) 15 kernels (matrix-vector, vector-matrix, matrix-matrix plain and unrolled, outer product, transpose, trace, norms, '
+                        'dot product, vector sum/difference, three tensor contractions) are abstracted with symbolic loop indices to a cell form '
+                        '(output index, term, index domain) that is unified with the textbook definition up to a renaming of the loop indices; the '
+                        'unrolled product is merged with its remainder loop after checking the shifted-term identity and the two ranges.')
     chk.assumptions = ['contracts of lsv/contracts.json', 'distinct parameters do not alias', 'LP64']
     prog = load_program(chk, ['vector.c', 'list.c', 'matrix.c', 'tensor.c', 'memwrapper.c', 'numeric.c'])
     contractmode.run(chk, prog, contractmode.C11_FUNCS, dom=4 if thorough else 3)
@@ -367,6 +371,9 @@ def c11(chk, thorough):
     chk.floor('SORT.shape', 2)
     guards.kernel_tolerances(chk, prog, contractmode.C11_FUNCS)
     chk.floor('K.tolerance', 5)
+    from . import kerneldef
+    kerneldef.run(chk, prog)
+    chk.floor('K.definition', 15)
     if chk.extra.get('kernels', 0) < 45:
         chk.broke('only %d kernels analysed, floor 45' % chk.extra.get('kernels', 0))
     chk.floor('K.bounds', 300)
